@@ -183,6 +183,16 @@ func genAllow(r *Rng) Sx {
 		router = 1
 	}
 	t, routes := genSimpleTable(r, router)
+	if r.Pct(15) {
+		// If-conditions on some routes: a route whose condition fails is not routable, whatever lists its method
+		for i := range t.Services {
+			for j := range t.Services[i].Routes {
+				if r.Pct(35) {
+					t.Services[i].Routes[j].Conds = []bool{r.Pct(40)}
+				}
+			}
+		}
+	}
 	q := genSimpleRequest(r, routes)
 	if r.Pct(30) {
 		q.Set("Origin", "http://a.example")
